@@ -513,8 +513,18 @@ func (fe *FnEnc) storeField(st *State, structT types.Type, i int, base Term, v T
 	fe.setComp(st, comp, srt, tStore(h, idx, v))
 }
 
+func isSyncMutex(t types.Type) bool {
+	n, ok := types.Unalias(t).(*types.Named)
+	return ok && n.Obj().Pkg() != nil && n.Obj().Pkg().Path() == "sync" && (n.Obj().Name() == "Mutex" || n.Obj().Name() == "RWMutex")
+}
+
 func (fe *FnEnc) storeStruct(st *State, structT types.Type, base Term, v Term) {
 	s := structOf(structT)
+	if isSyncMutex(structT) {
+		// (re)initialising a mutex value: it is unlocked
+		srt := arrSort(sInt, sBool)
+		fe.setComp(st, "held", srt, tStore(fe.getComp(st, "held", srt), base, tFalse))
+	}
 	v = fe.define("sv", v)
 	for i := 0; i < s.NumFields(); i++ {
 		fe.storeField(st, structT, i, base, fe.sorts.fieldSel(structT, i, v))
